@@ -64,7 +64,7 @@ var specs = map[string]*checkSpec{
 	"C18": {Property: "C18", Level: "exploration", Runs: map[string]int{"quick": 20000, "thorough": 600000}, Wall: map[string]int{"quick": 50, "thorough": 1500}},
 	"C06": {Property: "C06", Level: "exploration", Runs: map[string]int{"quick": 30000, "thorough": 1000000}, Wall: map[string]int{"quick": 50, "thorough": 1500}},
 	"C07": {Property: "C07", Level: "exploration", Runs: map[string]int{"quick": 20000, "thorough": 600000}, Wall: map[string]int{"quick": 50, "thorough": 1500}},
-	"C10": {Property: "C10", Level: "exploration", Runs: map[string]int{"quick": 12000, "thorough": 400000}, Wall: map[string]int{"quick": 50, "thorough": 1500}},
+	"C10": {Property: "C10", Level: "exploration", AlsoRace: true, Runs: map[string]int{"quick": 12000, "thorough": 400000}, RaceRuns: map[string]int{"quick": 1500, "thorough": 60000}, Wall: map[string]int{"quick": 70, "thorough": 1800}},
 }
 
 type agg struct {
